@@ -101,6 +101,81 @@ def compare_ops(ctx, lmq, model_exe, sess, m, stats):
     return problems
 
 
+def strip_empty(toks):
+    """remove empty non-terminals `( )` / `( ^ )` from a derivation"""
+    out, i = [], 0
+    while i < len(toks):
+        if toks[i] == "(" and i + 1 < len(toks) and toks[i + 1] == ")":
+            i += 2
+        elif toks[i] == "(" and i + 2 < len(toks) and toks[i + 1] == "^" and toks[i + 2] == ")":
+            i += 3
+        else:
+            out.append(toks[i])
+            i += 1
+    return out
+
+
+def epsilon_rule_stream(ctx, lmq, sess, m, qs, stats, base):
+    """chart states are canonical with respect to empty non-terminals: a derivation with epsilon rules inserted anywhere yields the
+    same ChartState (score, left state, right state) as the derivation without them -- in every structure (fourth-round change C02-12)"""
+    from props import c08
+    rng = ctx.rng
+    pairs = []
+    for _, s in qs[:ctx.pick(12, 60)]:
+        s = s[:8]
+        if not s:
+            continue
+        for _ in range(3):
+            bos = rng.chance(1, 2)
+            t = c08.gen_tree(rng, s, outer=True, bos=bos)
+            t0 = strip_empty(t)
+            if t0 == t:
+                # insert one after a random item boundary of the outer rule
+                k = rng.range(2 if bos else 1, len(t) - 1)
+                depth, cut = 0, None
+                for i, tok in enumerate(t):
+                    if tok == "(":
+                        depth += 1
+                    elif tok == ")":
+                        depth -= 1
+                    if i >= k and depth == 1 and tok not in ("B", "^"):
+                        cut = i + 1
+                        break
+                if cut is None or cut >= len(t):
+                    continue
+                t = t[:cut] + ["(", ")"] + t[cut:]
+            pairs.append((s, bos, t, t0))
+    if not pairs:
+        return []
+    problems = []
+    lines = []
+    for _, _, t, t0 in pairs:
+        lines += ["C " + " ".join(t), "C " + " ".join(t0)]
+    for typ in ("probing", "trie", "rest"):
+        cmd = [lmq, sess.arpa, typ, sess.vocab, "tmp=" + sess.dir + "/"]
+        rc, out, err = vlib.sh(cmd, input=("\n".join(lines) + "\n").encode(), timeout=40)
+        res = out.split("\n")
+        if not res or not res[0].startswith("loaded"):
+            continue
+        body = [x for x in res[1:1 + len(lines)] if x != ""]
+        if rc != 0 and len(body) < len(lines):
+            # the scorer died or did not come back on the first derivation without an answer
+            i = len(body) // 2
+            s_, bos_, t_, t0_ = pairs[min(i, len(pairs) - 1)]
+            problems.append(("crash:epsilon-rule:" + typ, "chart scoring of a derivation %s (rc=%d) -- neither a score nor an exception"
+                             % ("did not terminate within 40 s" if rc == 124 else "killed the process", rc),
+                             dict(base, type=typ, sentence=s_, bos=bos_, tree=" ".join(t_ if len(body) % 2 == 0 else t0_)), True))
+            break
+        stats["impl_runs"] = stats.get("impl_runs", 0) + 1
+        stats["epsilon_pairs"] = stats.get("epsilon_pairs", 0) + len(pairs)
+        for i, (s, bos, t, t0) in enumerate(pairs):
+            if 2 * i + 1 < len(body) and body[2 * i] != body[2 * i + 1]:
+                problems.append(("spec:epsilon-rule:" + typ, "a derivation with an empty non-terminal gives chart state %s, without it %s" % (body[2 * i][:120], body[2 * i + 1][:120]),
+                                 dict(base, type=typ, sentence=s, bos=bos, tree=" ".join(t), tree_without=" ".join(t0)), True))
+                break
+    return problems
+
+
 def run(ctx):
     pres = vlib.coq_prove("C02")
     ctx.set_proof(pres)
@@ -145,6 +220,8 @@ def run(ctx):
         allprob += [p for p in c01.compare_case(ctx, m, sess, lmq, model_exe, qs[:40], ["probing", "trie"], stats) if not p[3]]
         if mi == 0:
             allprob += compare_ops(ctx, lmq, model_exe, sess, m, stats)
+        if mi % 3 == 0:
+            allprob += epsilon_rule_stream(ctx, lmq, sess, m, qs, stats, base)
         nontrivial += 1 if m.order >= 3 else 0
         if mi < 2:
             ctx.sample({"order": m.order, "vocab": len(m.vocab), "ngrams": len(m.grams), "suffix_closed": m.suffix_closed(), "first_query": qs[0]})
